@@ -113,6 +113,22 @@ func (g *gen) vars(t typ, writable bool) []variable {
 	return out
 }
 
+// refMutOK: may this statement write through a slice, map or pointer? Not inside a declared function that has a
+// parameter of such a type: the function is called inside expressions, and Go does not specify whether an operand
+// like `q.X` is read before or after a call `f(q)` in the same expression that changes *q (the toolchain reads it
+// after, yaegi before: `q.Sum() + q.X + f1(q, q)` was a one-in-16 000 spurious divergence).
+func (g *gen) refMutOK() bool {
+	if g.inFunc == nil {
+		return true
+	}
+	for _, p := range g.inFunc.params {
+		if p.t == tSlice || p.t == tMap || p.t == tPtrP {
+			return false
+		}
+	}
+	return true
+}
+
 func (g *gen) pickVar(t typ, writable bool) (variable, bool) {
 	vs := g.vars(t, writable)
 	if len(vs) == 0 {
@@ -679,7 +695,7 @@ func (g *gen) stmt() {
 	case k == 7: // compound targets
 		switch g.r.Intn(6) {
 		case 0:
-			if v, ok := g.pickVar(tSlice, false); ok {
+			if v, ok := g.pickVar(tSlice, false); ok && g.refMutOK() {
 				if g.off("assign-elem") {
 					return
 				}
@@ -695,7 +711,7 @@ func (g *gen) stmt() {
 				g.line("%s[ix(%s, 3)] %s %s", v.name, g.expr(tInt, 1), []string{"=", "-="}[g.r.Intn(2)], g.expr(tInt, 2))
 			}
 		case 2:
-			if v, ok := g.pickVar(tMap, false); ok {
+			if v, ok := g.pickVar(tMap, false); ok && g.refMutOK() {
 				if g.off("assign-map") {
 					return
 				}
@@ -711,7 +727,7 @@ func (g *gen) stmt() {
 				g.line("%s.%s %s %s", v.name, []string{"X", "Y"}[g.r.Intn(2)], []string{"=", "+="}[g.r.Intn(2)], g.expr(tInt, 2))
 			}
 		case 4:
-			if v, ok := g.pickVar(tPtrP, false); ok {
+			if v, ok := g.pickVar(tPtrP, false); ok && g.refMutOK() {
 				if g.off("assign-ptr-field") {
 					return
 				}
@@ -719,7 +735,7 @@ func (g *gen) stmt() {
 				g.line("%s.%s %s %s", v.name, []string{"X", "Y"}[g.r.Intn(2)], []string{"=", "-="}[g.r.Intn(2)], g.expr(tInt, 2))
 			}
 		case 5:
-			if v, ok := g.pickVar(tPtrP, false); ok {
+			if v, ok := g.pickVar(tPtrP, false); ok && g.refMutOK() {
 				if g.off("assign-deref") {
 					return
 				}
@@ -748,7 +764,7 @@ func (g *gen) stmt() {
 				g.line("%s.Inc(%s)", v.name, g.expr(tInt, 1))
 			}
 		case 1:
-			if v, ok := g.pickVar(tPtrP, false); ok {
+			if v, ok := g.pickVar(tPtrP, false); ok && g.refMutOK() {
 				if g.off("ptr-method") {
 					return
 				}
@@ -756,7 +772,7 @@ func (g *gen) stmt() {
 				g.line("%s.Inc(%s)", v.name, g.expr(tInt, 1))
 			}
 		case 2:
-			if v, ok := g.pickVar(tMap, false); ok {
+			if v, ok := g.pickVar(tMap, false); ok && g.refMutOK() {
 				if g.off("delete") {
 					return
 				}
@@ -765,7 +781,7 @@ func (g *gen) stmt() {
 			}
 		default:
 			a, ok1 := g.pickVar(tSlice, false)
-			if ok1 {
+			if ok1 && g.refMutOK() {
 				if g.off("copy") {
 					return
 				}
